@@ -10,6 +10,8 @@ import Foundation.Proofs.C04
   transaction layer saw; `answer_txOnly`, `robotDone_txOnly` show the four robot items have that
   shape (whatever the record, the asset list, the key);
 * `refused_answer_invisible`, `refused_key_invisible` — the corollaries for the robot's items;
+* `accepted_answer_exact`, `accepted_key_exact` — an accepted single-asset answer / key changes
+  exactly the record and the one counter (under the upper-case channel name) by exactly the amount;
 * `switched_off_lists_ignored` — with a switch off, the batch is the same program as the batch
   without the two lists of that kind (nothing of them is read, answered or written).
 -/
@@ -186,5 +188,85 @@ example : (runSpec ⟨fun _ => "", fun _ => none, []⟩
 example : ∃ ws, (runSpec ⟨fun _ => "", fun _ => none, []⟩
     (answerProg true ("i", ⟨"o", "VT", "VT", "CC", "h", "c", [("g", 1)]⟩))).2 = .ok ws := by
   simp [answerProg, item, answerCore, cmpToken, runSpec, Batch.bind, finishItem, specStep]
+
+end Foundation.FullBatch
+
+namespace Foundation.FullBatch
+open Foundation.Cache Foundation.Batch
+
+/-- `accepted_answer_exact`: an accepted answer to a swap whose token comes home (one asset of
+    amount `n`, covered by the given-out counter of the source channel), started on an empty
+    transaction layer, changes exactly two keys of the committed map: the record is stored (creator
+    `0000`) and the counter of the source channel — under its upper-case name — is `n` less.
+    Everything else is as before, and the reply lists exactly these writes. -/
+theorem accepted_answer_exact (multi : Bool) (id g : String) (n : Int) (r : Rec) (m : Spec)
+    (ho : m.o = fun _ => none)
+    (hsrc : cmpToken multi r ≠ r.src) (hdst : cmpToken multi r = r.dst) (has : r.assets = [(g, n)])
+    (hfund : ¬ readBal (m.c (givenKey r.src)) < n) :
+    let res := runSpec m (answerProg multi (id, r))
+    (∀ k, res.1.c k =
+      if k = recKey multi id then enc { r with creator := "0000" }
+      else if k = givenKey r.src then showBal (readBal (m.c (givenKey r.src)) - n)
+      else m.c k) ∧
+    (∃ ws, res.2 = .ok ws) := by
+  intro res
+  have ht : m.t (givenKey r.src) = m.c (givenKey r.src) := by simp [Spec.t, ho]
+  have hres : res = runSpec m (answerProg multi (id, r)) := rfl
+  simp only [answerProg, item, answerCore, if_neg hsrc, if_pos hdst, has, subAll, Batch.bind, runSpec, specStep,
+    Option.getD, ht, if_neg hfund, finishItem, Spec.commit] at hres
+  constructor
+  · intro k
+    rw [hres]
+    simp only [Spec.t, upd, ho]
+    by_cases h1 : k = recKey multi id
+    · simp [h1, has, W.read]
+    · by_cases h2 : k = givenKey r.src
+      · subst h2
+        have h1' : ¬ givenKey r.src = recKey multi id := h1
+        simp [h1', W.read]
+      · simp [h1, h2]
+  · rw [hres]; exact ⟨_, rfl⟩
+
+/-- `accepted_key_exact`: the robot's key for a record of this channel's own token (one asset of
+    amount `n`) whose stored hash it opens, on an empty transaction layer: the record is gone, the
+    given-out counter of the destination channel — under its upper-case name — is `n` more, nothing
+    else changes. For a record of a foreign token only the record goes. (That stored records decode —
+    `dec (enc r) = some r` for the records of the workload — is exercised by the compiled driver on
+    every FBATCH history, not proved: string splitting does not reduce in the kernel.) -/
+theorem accepted_key_exact (multi : Bool) (id key g : String) (n : Int) (r : Rec) (m : Spec)
+    (ho : m.o = fun _ => none)
+    (hrec : dec (m.c (recKey multi id)) = some r) (hkey : r.hash = hashOf key) (has : r.assets = [(g, n)]) :
+    let res := runSpec m (robotDoneProg multi (id, key))
+    (cmpToken multi r = r.src → ∀ k, res.1.c k =
+      if k = recKey multi id then ""
+      else if k = givenKey r.dst then showBal (readBal (m.c (givenKey r.dst)) + n)
+      else m.c k) ∧
+    (cmpToken multi r ≠ r.src → ∀ k, res.1.c k = if k = recKey multi id then "" else m.c k) ∧
+    (∃ ws, res.2 = .ok ws) := by
+  intro res
+  have ht : ∀ k, m.t k = m.c k := by intro k; simp [Spec.t, ho]
+  have hk : ¬ r.hash ≠ hashOf key := by simp [hkey]
+  have hres : res = runSpec m (robotDoneProg multi (id, key)) := rfl
+  by_cases hs : cmpToken multi r = r.src
+  · simp only [robotDoneProg, item, robotDoneCore, Batch.bind, runSpec, specStep, Option.getD, ht, hrec,
+      if_neg hk, if_pos hs, has, addAll, finishItem, Spec.commit] at hres
+    refine ⟨fun _ k => ?_, fun hne => absurd hs hne, by rw [hres]; exact ⟨_, rfl⟩⟩
+    rw [hres]
+    simp only [Spec.t, upd, ho]
+    by_cases h1 : k = recKey multi id
+    · simp [h1, W.read]
+    · by_cases h2 : k = givenKey r.dst
+      · subst h2
+        have h1' : ¬ givenKey r.dst = recKey multi id := h1
+        simp [h1', W.read]
+      · simp [h1, h2]
+  · simp only [robotDoneProg, item, robotDoneCore, Batch.bind, runSpec, specStep, Option.getD, ht, hrec,
+      if_neg hk, if_neg hs, finishItem, Spec.commit] at hres
+    refine ⟨fun he => absurd he hs, fun _ k => ?_, by rw [hres]; exact ⟨_, rfl⟩⟩
+    rw [hres]
+    simp only [Spec.t, upd, ho]
+    by_cases h1 : k = recKey multi id
+    · simp [h1, W.read]
+    · simp [h1]
 
 end Foundation.FullBatch
